@@ -161,6 +161,9 @@ type Scenario struct {
 	NoHooks bool `json:"no_hooks,omitempty"`
 	// StdoutDevFull connects stdout to the real /dev/full (every write fails with ENOSPC in the kernel)
 	StdoutDevFull bool `json:"stdout_dev_full,omitempty"`
+	// StdoutCharDev connects stdout to a character device (/dev/null), which is what yq takes for a terminal
+	// when it decides about colours; what yq prints there is not seen (used with -i, where the target gets the output)
+	StdoutCharDev bool `json:"stdout_char_dev,omitempty"`
 	// Strace injection (thorough tier): e.g. "renameat:error=EBUSY"
 	Strace string `json:"strace,omitempty"`
 	// Peer: a second process in the same directories, run while the first is parked at a step boundary
@@ -261,4 +264,8 @@ type LibJob struct {
 	Chunks   []int  `json:"chunks,omitempty"`
 	ErrAt    int64  `json:"err_at"` // read error offset, <0 none
 	LazyInit bool   `json:"lazy_init,omitempty"`
+	// SharePrinter (history mode): the printer is a pooled object too, one per encoder instance, given a fresh
+	// buffered writer for every evaluation; only for output formats without document separators or leading content
+	SharePrinter bool `json:"share_printer,omitempty"`
+	NulSep       bool `json:"nul_sep,omitempty"` // records end with NUL (yq -0)
 }
